@@ -129,6 +129,10 @@ var errBoom = errors.New("boom (native)")
 // Native renders an op-list as a Go action function.
 func Native(ops []Op, partial bool) func(context.Context, match.Bindings, core.StepProps) (*core.Execution, error) {
 	return func(ctx context.Context, bs match.Bindings, props core.StepProps) (*core.Execution, error) {
+		if len(ops) == 0 && bs != nil {
+			// an action with nothing to change returns the bindings it was given (as interpreters/noop does)
+			return core.NewExecution(bs), nil
+		}
 		cur := match.Bindings{}
 		for k, v := range bs {
 			cur[k] = enc.DeepCopy(v)
